@@ -42,7 +42,7 @@ THEOREM_NOTES = {
                     "sum x_k q_k with C01's q), C04_mean_rate_explicit (the right-hand side in terms of int_l^r x nu) and "
                     "C04_conversions_preserve_mean (all four generated conversions keep the first cumulant)",
 }
-LEVEL_TEXT = ("Proof: 12 Coq theorems (closed under the global context): compute_mu_h's running-boundary loop equals sum_k x_k q_k for every "
+LEVEL_TEXT = ("Proof: 13 Coq theorems (closed under the global context): compute_mu_h's running-boundary loop equals sum_k x_k q_k for every "
               "axis; process_drift + sum_k x_k q_k equals the first cumulant per unit time of (a, sigma, nu|[l,r]) in the declared "
               "representation for all four representations and both variation flags (pure algebra over additivity of the first-moment "
               "integral; the four conversions are re-translated from levymodel.py on every run); sigma_h^2 = sigma^2 for finite variation "
@@ -234,7 +234,7 @@ def correspond(res):
               "Model.Chain Model.Drift.\nOpen Scope Q_scope.")
     res.case_lemmas += len(groups)
     for gname, ty_, chk, cs in groups:
-        bad, _ = parallel_coq_bad(PROP, f"cases_{gname}", header, ty_, chk, cs, shard=(2 if gname == "copuladrift" else 10), jobs=14)
+        bad, _ = parallel_coq_bad(PROP, f"cases_{gname}", header, ty_, chk, cs, shard=(2 if gname in ("copuladrift", "copulasig2") else 10), jobs=14)
         if bad:
             res.broke(f"correspondence {gname}", f"model and implementation differ on {len(bad)} case(s), first: {cs[bad[0]][:1500]}")
         else:
@@ -372,7 +372,7 @@ def _copula_drift(res, rng, viol, groups, n_cases):
     from rpylib.distribution.levycopula import IndependentComponentsCopula
     from rpylib.model.levymodel.levymodel import TruncatedLevyMeasure
     from stepmeasure import random_step_measure, random_dyadic_axis, step_spec, build_model
-    cases = []
+    cases, sig_cases = [], []
     for it in range(n_cases):
         dim = rng.choice([2, 2, 3])
         h = Fr(1, 2)
@@ -394,8 +394,9 @@ def _copula_drift(res, rng, viol, groups, n_cases):
             nu.finite_variation, nu.strict = flags[k], False
             rep = rng.choice(["ZERO", "CENTER", "ONEONE", "TILDE"] if flags[k] else ["CENTER", "ONEONE", "TILDE"])   # ZERO needs finite variation
             a = Fr(rng.randrange(-8, 9), 8)
-            specs.append(step_spec(nu, a=a, sigma=0, representation=rep))
-            margins.append((nu, rep, a))
+            sig = Fr(rng.randrange(0, 5), 4)
+            specs.append(step_spec(nu, a=a, sigma=sig, representation=rep))
+            margins.append((nu, rep, a, sig))
         ctx = dict(kind="copula-drift", margins=specs, axes=[[float(x) for x in ax[0]] for ax in axes], o=o, h=float(h))
         try:
             with warnings.catch_warnings():
@@ -405,12 +406,29 @@ def _copula_drift(res, rng, viol, groups, n_cases):
                 p = MarkovChainLevyCopula(levy_copula_model=model, grid=grid, method=SamplingMethod.INVERSION)
                 p.initialisation(_product())
                 drift = [float(v) for v in np.ravel(p.process_drift())]
+                dmat = np.real(np.array(p._path_simulation.diffusion_matrix, dtype=complex))
+                var_matrix = dmat @ dmat.T
         except Exception as e:  # noqa
             viol(f"initialising the copula chain raises {type(e).__name__}", reason=str(e)[:200], **ctx)
             continue
+        # the diffusion matrix D of the chain (independent margins): D D^T = diag(sigma_k^2 + second moment of margin k over the
+        # central cell if margin k has infinite variation)  -- library quadrature (nquad): tolerance
+        hq = h
+        want_diag = []
+        for k, (nu, rep, a, sig) in enumerate(margins):
+            axk = axes[k][0]
+            c_h = Fr(0) if flags[k] else nu.moment_q(max(-hq / 2, Fr(-1), axk[0]), min(hq / 2, Fr(1), axk[-1]), 2)
+            want_diag.append(sig * sig + c_h)
+        want_m = np.diag([float(v) for v in want_diag])
+        res.bump("copula_variance_case", "some margin of infinite variation" if not all(flags) else "all finite variation")
+        if np.max(np.abs(var_matrix - want_m)) > 1e-5 + 1e-4 * float(max(want_diag)):
+            viol("copula chain: D D^T of the diffusion matrix is not diag(sigma_k^2 + central-cell second moment of the infinite-variation margins)",
+                 finding="F-C04-3", flags=flags, got=[[float(v) for v in row] for row in var_matrix], want=[float(v) for v in want_diag], **ctx)
+        sig_cases.append(f"({lst(['(' + nu.coq() + ', ' + lst([qlit(float(x)) for x in axes[k][0]]) + ', ' + qlit(sig) + ', ' + blit(flags[k]) + ')' for k, (nu, rep, a, sig) in enumerate(margins)])}, "
+                         f"{qlit(h)}, {lst([qlit(float(var_matrix[k][k])) for k in range(dim)])})")
         res.count(("copula-drift", it, tuple(flags), dim, same_axes), kind=f"copula chain drift ({'mixed' if len(set(flags)) > 1 else 'equal'} flags)")
         lits = []
-        for k, (nu, rep, a) in enumerate(margins):
+        for k, (nu, rep, a, sig) in enumerate(margins):
             ax = axes[k][0]
             g1 = CTMCGrid(h=float(h), origin_coordinate=o, axes=[np.array([float(x) for x in ax])])
             q = create_q_vector(TruncatedLevyMeasure(nu, (float(ax[0]), float(ax[-1]))), g1)
@@ -421,6 +439,9 @@ def _copula_drift(res, rng, viol, groups, n_cases):
                      finding="F-C04-2", margin=k, flags=flags, got=float(got), want=float(want), **ctx)
             lits.append(f"({nu.coq()}, {lst([qlit(float(x)) for x in ax])}, {natlit(o)}, {qlit(0)}, {zlit(REP_VAL[rep])}, {blit(flags[k])}, {qlit(a)})")
         cases.append(f"({lst(lits)}, {lst([qlit(d) for d in drift])})")
+    groups.append(("copulasig2", "list (list (Q * Q * Q) * list Q * Q * bool) * Q * list Q",
+                   "fun c => match c with (ms, h, e) => let m := copula_chain_sig2 ms h in Nat.eqb (length m) (length e) && "
+                   "forallb (fun xy => Qle_bool (Qabs (fst xy - snd xy)) ((1 # 100000) + (1 # 10000) * Qabs (fst xy))) (combine m e) end", sig_cases))
     groups.append(("copuladrift", "list (list (Q * Q * Q) * list Q * nat * Q * Z * bool * Q) * list Q",
                    "fun c => qlist_eqb (copula_chain_drift (fst c)) (snd c)", cases))
     # real margins with different flags (tolerance): HEM (finite variation) with CGMY y = 1.3 (infinite variation)
